@@ -1386,3 +1386,35 @@ def arr_all(I, recv, args, kwargs):
     if recv.ndim != 1 or args or kwargs:
         raise Undecided("ndarray.all on n-d array / with arguments")
     return _all(I, [recv], {})
+
+
+_old_reshape3 = arr_reshape2
+
+
+@method("arr", "reshape")
+def arr_reshape3(I, recv, args, kwargs):
+    """2-d -> 2-d with one inferred dimension: (r, c).reshape(-1, c2) / (r2, -1), C order"""
+    shp = list(args[0].items) if len(args) == 1 and isinstance(args[0], SList) else list(args)
+    a = recv
+
+    def is_m1(x):
+        return not is_sym(x) and x == -1
+    if a.ndim == 2 and len(shp) == 2 and (is_m1(shp[0]) != is_m1(shp[1])):
+        r, c = a.shape
+        if is_m1(shp[1]) and (shp[0] is r or I.ctx.entails(Eq(shp[0], r))):
+            return a
+        if is_m1(shp[0]) and (shp[1] is c or I.ctx.entails(Eq(shp[1], c))):
+            return a
+        total = _mul(I, r, c)
+        known = shp[1] if is_m1(shp[0]) else shp[0]
+        if not I.ctx.entails(to_z3(known) >= 1):
+            raise Undecided("reshape with an inferred dimension and a possibly non-positive known dimension")
+        q, rem = ops.divmod_int(I.ctx, total, known)
+        if not I.ctx.entails(Eq(rem, 0)):
+            if I.ctx.branch(Not(Eq(rem, 0)), "reshape-size-mismatch"):
+                raise SymRaise(ExcVal(ExtClass("builtins.ValueError"), ()), where="reshape: size mismatch")
+        r2, c2 = (q, known) if is_m1(shp[0]) else (known, q)
+        USED.add("ndarray.reshape: C-order (row-major) re-indexing")
+        return SArr((r2, c2), lambda i, j: a.fn(_zdiv(simp(to_z3(i) * to_z3(c2) + to_z3(j)), c), _zmod(simp(to_z3(i) * to_z3(c2) + to_z3(j)), c)),
+                    a.dtype, "ndarray")
+    return _old_reshape3(I, recv, args, kwargs)
